@@ -170,6 +170,12 @@ func (f Function) byteCode(srcsel int, fl flags.Pass, cr compResult) bytecode.Ty
 		*cr.CS = append(*cr.CS, instr)
 	}
 
+	// the function value has 16 bits for each count; variables that are never
+	// read have no operand address that would be refused
+	if len(f.Parameters.Elems) > value.MaxVarCnt || f.LocalCnt > value.MaxVarCnt {
+		panic(bytecode.ErrAddrRange)
+	}
+
 	funVal := value.NewFunction(bodyAddr, nil, len(f.Parameters.Elems), f.LocalCnt)
 	ix := len(*cr.DS)
 	*cr.DS = append(*cr.DS, funVal)
